@@ -112,6 +112,11 @@ func cmdRun(prop, tier, only string, verbose bool, workers int, solverBin string
 		return 3
 	}
 	tc := tierConfig(tier)
+	if v := os.Getenv("VERIF_DEADLINE_S"); v != "" {
+		if n, err := strconv.Atoi(v); err == nil {
+			tc.Deadline = time.Duration(n) * time.Second
+		}
+	}
 	fmt.Printf("vcheck: property %s tier %s: %d harnesses, load+SSA %.1fs\n", prop, tier, len(hs), ld.loadTime.Seconds())
 
 	// replay binaries are built while the solver works
@@ -129,7 +134,15 @@ func cmdRun(prop, tier, only string, verbose bool, workers int, solverBin string
 
 	rc := RunConfig{Workers: workers, SolverBin: solverBin, TimeoutMs: tc.TimeoutMs, MaxSteps: tc.MaxSteps,
 		MaxDecisions: tc.MaxDecisions, MaxPaths: tc.MaxPaths, Deadline: tc.Deadline, Verbose: verbose}
+	if os.Getenv("VERIF_BRANCHSTATS") != "" {
+		branchStats = map[string]int{}
+	}
 	results := Explore(ld.prog, hs, rc)
+	if branchStats != nil {
+		for _, k := range sortedKeys(branchStats) {
+			fmt.Printf("BRANCH %6d %s\n", branchStats[k], k)
+		}
+	}
 	exploreTime := time.Since(t0)
 
 	// ---- native replays: counterexamples, reach witnesses, random self-test vectors ----
@@ -319,17 +332,17 @@ func cmdRun(prop, tier, only string, verbose bool, workers int, solverBin string
 	}
 	sort.Strings(incomplete)
 	extra := map[string]interface{}{
-		"harnesses":            harnessNames(hs),
-		"functions_encoded":    sortedSet(funcs),
-		"functions_encoded_n":  len(funcs),
-		"obligation_details":   oblEv,
-		"queries":              map[string]int{"total": solver.Queries, "unsat": solver.NUnsat, "sat": solver.NSat, "unknown": solver.NUnknown},
-		"solver_time_s":        solver.Time.Seconds(),
-		"explore_wall_s":       exploreTime.Seconds(),
-		"undischarged":         undischarged,
-		"incomplete":           incomplete,
-		"engine_notes":         sortedSet(notes),
-		"native_replays_agree": validated,
+		"harnesses":             harnessNames(hs),
+		"functions_encoded":     sortedSet(funcs),
+		"functions_encoded_n":   len(funcs),
+		"obligation_details":    oblEv,
+		"queries":               map[string]int{"total": solver.Queries, "unsat": solver.NUnsat, "sat": solver.NSat, "unknown": solver.NUnknown},
+		"solver_time_s":         solver.Time.Seconds(),
+		"explore_wall_s":        exploreTime.Seconds(),
+		"undischarged":          undischarged,
+		"incomplete":            incomplete,
+		"engine_notes":          sortedSet(notes),
+		"native_replays_agree":  validated,
 		"native_replays_differ": mismatches,
 		"bounds": map[string]interface{}{"max_symbolic_decisions_per_path": tc.MaxDecisions, "max_ssa_instructions_per_path": tc.MaxSteps,
 			"max_paths_per_harness": tc.MaxPaths, "solver_timeout_ms": tc.TimeoutMs, "wall_deadline_s": tc.Deadline.Seconds(),
